@@ -23,7 +23,7 @@ FORMATS = ["nt", "tsv_spo", "turtle", "turtle_iter", "xml", "n3", "json-ld", "bo
 COMPRESSIONS = [None, "gz", "zip", "xz", "bogus"]
 EXAMPLES = [None, "shape", "cons", "all", "bogus"]
 RULE = ("Exhaustive enumeration (no random choice): (A) all 2^7 presence patterns of the graph-source arguments x all 2^5 patterns of "
-        "the target arguments (incl. all_classes_mode); (B) every single source x every valid target pattern x compression "
+        "the target arguments (incl. all_classes_mode), each also with present-but-empty raw_graph='' / rdflib Graph(); (B) every single source x every valid target pattern x compression "
         "{None,gz,zip,xz,bogus} x input formats + bogus x examples modes + bogus x the 4 or-flag combinations (quick: examples/or-flags "
         "cycled instead of multiplied); (C) thresholds {-0.01,0,1,1.01} x output formats {ShEx,Shacl,bogus} x sinks {none,string,"
         "file,both}.  Oracle: reference predicate; constructor / shex_graph raise ValueError <=> predicate says invalid, any other "
@@ -34,7 +34,7 @@ ASSUMPTIONS = ["the reference predicate below is a faithful transcription of the
                "remote sources are exercised with file:// URLs and an in-process SPARQL endpoint (no network)"]
 BUDGET = {"quick": {"examples": 0, "wall": 240}, "thorough": {"examples": 0, "wall": 3000}}
 EXHAUSTIVE = {"quick": True, "thorough": True}
-FLOORS = {"nontrivial": 0.2, "expected:accept": 0.1, "expected:reject": 0.3}
+FLOORS = {"nontrivial": 0.2, "expected:accept": 0.05, "expected:reject": 0.3}
 SURVEY = bool(os.environ.get("VF_C20_SURVEY"))
 ENDPOINT = "http://fake.endpoint/sparql"
 
@@ -134,7 +134,7 @@ def build_kwargs(c, d):
         elif s == "graph_list_of_files_input":
             kw[s] = [write_file(d, "g1." + ext, content(fmt, TRIPLES[:2]), comp), write_file(d, "g2." + ext, content(fmt, TRIPLES[2:]), comp)]
         elif s == "raw_graph":
-            kw[s] = content(fmt, TRIPLES)
+            kw[s] = "" if c.get("empty") else content(fmt, TRIPLES)
         elif s == "url_graph_input":
             kw[s] = "file://" + write_file(d, "u." + ext, content(fmt, TRIPLES), None)
         elif s == "list_of_url_input":
@@ -143,7 +143,7 @@ def build_kwargs(c, d):
         elif s == "url_endpoint":
             kw[s] = ENDPOINT
         elif s == "rdflib_graph":
-            kw[s] = to_rdflib(TRIPLES)
+            kw[s] = to_rdflib([] if c.get("empty") else TRIPLES)
     for t in c["targets"]:
         if t == "target_classes":
             kw[t] = [EX + "C0"]
@@ -177,7 +177,7 @@ def check(c):
             holder["s"] = sut.Shaper(**kw)
             return True
         res, crash = sut.guarded(construct, 30)
-        desc = "sources=%s targets=%s all_classes=%s format=%s compression=%s examples=%s or=%s" % (
+        desc = ("EMPTY-GRAPH " if c.get("empty") else "") + "sources=%s targets=%s all_classes=%s format=%s compression=%s examples=%s or=%s" % (
             c["sources"], c["targets"], c["all_classes"], c["format"], c["compression"], c["examples"], c["or"])
         if exp_ctor:
             if crash is None:
@@ -202,9 +202,9 @@ def check(c):
             return ok(labels, nt)
         if crash is not None:
             return _deferred(crash, "accepted configuration fails later in shex_graph with %s: %s" % (crash, desc), labels, nt, c)
-        if call["sink"] in ("string", "both") and not (isinstance(res, str) and "{" in res if call["fmt"] == "ShEx" else isinstance(res, str)):
+        if call["sink"] in ("string", "both") and not (isinstance(res, str) and ("{" in res or c.get("empty")) if call["fmt"] == "ShEx" else isinstance(res, str)):
             return violation("accepted configuration returned %r" % (res,), labels, nt)
-        if call["sink"] in ("string", "both") and call["fmt"] == "ShEx" and call["thr"] == 0 and EX + "p" not in res and "ex:p" not in res:
+        if call["sink"] in ("string", "both") and call["fmt"] == "ShEx" and call["thr"] == 0 and not c.get("empty") and EX + "p" not in res and "ex:p" not in res:
             return violation("accepted configuration produced shapes without the data's property (graph not read?): %s\n%s" % (desc, res), labels, nt)
     return ok(labels, nt)
 
@@ -272,6 +272,9 @@ def enumerate_cases(tier):
         for tg in _subsets(TARGETS):
             for allc in (False, True):
                 yield dict(base, sources=src, targets=tg, all_classes=allc)
+                if "raw_graph" in src or "rdflib_graph" in src:
+                    # present-but-empty graphs ("" / Graph()) are still "given": presence is 'is not None', not truthiness
+                    yield dict(base, sources=src, targets=tg, all_classes=allc, empty=True)
     # (B) single source x valid targets x compression x format x examples x or-flags
     ors = [[True, False], [False, False], [False, True], [True, True]]
     k = 0
